@@ -40,6 +40,99 @@ type lexModel struct {
 	g         *lexGraph
 	stores    []*ssa.Store
 	ltStores  map[*ssa.Store]bool // stores after which the content is known < len
+	// scanner state kept in a local struct instead of captured locals: the struct and the field indices
+	state      *ssa.Alloc
+	posField   int
+	usageField int
+	tokenT     *types.Named
+}
+
+// emitSite is one place where the scanner produces a token: a call of an emitter closure, or (when
+// the emitter was a method that got inlined) a Token literal built in the scanner itself.
+type emitSite struct {
+	in       ssa.Instruction
+	kind     ssa.Value
+	text     ssa.Value
+	pos      ssa.Value // nil when the emitter reads the position itself
+	implicit bool
+}
+
+func (m *lexModel) emitSites() []emitSite {
+	var out []emitSite
+	implicitPos := map[*ssa.Function]bool{}
+	for f := range m.emits {
+		ir.Instrs(f, func(in ssa.Instruction) {
+			if ld, ok := in.(*ssa.UnOp); ok && ld.Op == token.MUL && m.pos != nil && ir.CellAlloc(ld.X) == m.pos {
+				implicitPos[f] = true
+			}
+		})
+	}
+	for _, call := range ir.Calls(m.fn) {
+		cv, ok := call.(*ssa.Call)
+		if !ok {
+			continue
+		}
+		f := ir.Static(cv)
+		if f == nil || !m.emits[f] || len(cv.Call.Args) < 2 {
+			continue
+		}
+		es := emitSite{in: cv, kind: cv.Call.Args[0], text: cv.Call.Args[1]}
+		if implicitPos[f] {
+			es.implicit = true
+		} else if len(cv.Call.Args) >= 3 {
+			es.pos = cv.Call.Args[2]
+		}
+		out = append(out, es)
+	}
+	// Token literals of the scanner function itself
+	if m.tokenT != nil {
+		ir.Instrs(m.fn, func(in ssa.Instruction) {
+			al, ok := in.(*ssa.Alloc)
+			if !ok || al.Comment != "complit" {
+				return
+			}
+			pt, isP := al.Type().(*types.Pointer)
+			if !isP {
+				return
+			}
+			n, isN := pt.Elem().(*types.Named)
+			if !isN || n.Obj() != m.tokenT.Obj() {
+				return
+			}
+			fields, _ := litFields(al)
+			one := func(name string) ssa.Value {
+				if len(fields[name]) == 1 {
+					return fields[name][0]
+				}
+				return nil
+			}
+			if one("Typ") == nil || one("Val") == nil || one("Pos") == nil {
+				return
+			}
+			out = append(out, emitSite{in: al, kind: one("Typ"), text: one("Val"), pos: one("Pos")})
+		})
+	}
+	return out
+}
+
+// fieldAddrOf: v is &state.f for the scanner's state struct.
+func (m *lexModel) fieldAddrOf(v ssa.Value) (int, bool) {
+	fa, ok := v.(*ssa.FieldAddr)
+	if !ok || m.state == nil || fa.X != ssa.Value(m.state) {
+		return 0, false
+	}
+	return fa.Field, true
+}
+
+// isPosAddr: v addresses the scanner position (the cell, or the state struct's field).
+func (m *lexModel) isPosAddr(v ssa.Value) bool {
+	if m.pos != nil && v == ssa.Value(m.pos) {
+		return true
+	}
+	if f, ok := m.fieldAddrOf(v); ok && m.pos == nil && f == m.posField {
+		return true
+	}
+	return false
 }
 
 // lexGraph is the scanner's CFG with infeasible boolean-phi paths threaded out.
@@ -143,6 +236,108 @@ func buildLexGraph(fn *ssa.Function) *lexGraph {
 		}
 		g.succ[b] = nil
 	}
+	// results of inlined helpers travel through two joins (`inlR = ..; break L` then the caller's
+	// `if perr != nil`): follow a nil-tested phi back through the jump-only join that feeds it
+	for _, t := range fn.Blocks {
+		if len(t.Instrs) == 0 || len(t.Succs) != 2 {
+			continue
+		}
+		iff, ok := t.Instrs[len(t.Instrs)-1].(*ssa.If)
+		if !ok {
+			continue
+		}
+		bo, ok := iff.Cond.(*ssa.BinOp)
+		if !ok || !(bo.Op == token.EQL || bo.Op == token.NEQ) || !ir.IsNilConst(bo.Y) || bo.Block() != t {
+			continue
+		}
+		phi, ok := bo.X.(*ssa.Phi)
+		if !ok || phi.Block() != t {
+			continue
+		}
+		pureT := true
+		for _, in := range t.Instrs {
+			switch in.(type) {
+			case *ssa.Phi, *ssa.BinOp, *ssa.If, *ssa.DebugRef:
+			default:
+				pureT = false
+			}
+		}
+		if !pureT {
+			continue
+		}
+		for i, p := range t.Preds {
+			inner, isPhi := phi.Edges[i].(*ssa.Phi)
+			if !isPhi || inner.Block() != p || len(p.Succs) != 1 {
+				continue
+			}
+			pureP := true
+			for _, in := range p.Instrs {
+				switch in.(type) {
+				case *ssa.Phi, *ssa.Jump, *ssa.DebugRef:
+				default:
+					pureP = false
+				}
+			}
+			if !pureP {
+				continue
+			}
+			for j, q := range p.Preds {
+				e := inner.Edges[j]
+				var isNil, known bool
+				if ir.IsNilConst(e) {
+					isNil, known = true, true
+				} else {
+					switch x := e.(type) {
+					case *ssa.Alloc, *ssa.MakeInterface:
+						_ = x
+						isNil, known = false, true
+					}
+				}
+				if !known {
+					continue
+				}
+				outcome := isNil == (bo.Op == token.EQL)
+				only := t.Succs[1]
+				if outcome {
+					only = t.Succs[0]
+				}
+				var repl []*ssa.BasicBlock
+				for _, sc := range g.succ[q] {
+					if sc == p {
+						repl = append(repl, only)
+					} else {
+						repl = append(repl, sc)
+					}
+				}
+				g.succ[q] = repl
+			}
+		}
+	}
+	// the general threading table (nil tests of merged results, index results, ...): an edge p->t into a
+	// block that only computes its branch condition is redirected to the successor it forces
+	thr := ir.ThreadInfo(fn)
+	for e, only := range thr {
+		pure := true
+		for _, in := range e.To.Instrs {
+			switch in.(type) {
+			case *ssa.Phi, *ssa.BinOp, *ssa.UnOp, *ssa.If, *ssa.DebugRef:
+			default:
+				pure = false
+			}
+		}
+		if !pure {
+			continue
+		}
+		var repl []*ssa.BasicBlock
+		for _, sc := range g.succ[e.From] {
+			if sc == e.To {
+				repl = append(repl, only)
+			} else {
+				repl = append(repl, sc)
+			}
+		}
+		g.succ[e.From] = repl
+	}
 	return g
 }
 
@@ -170,6 +365,39 @@ func (c *Ctx) lexModel() (*lexModel, string) {
 			}
 		}
 	}
+	// or kept in a field of a local state struct: `s := &scanner{usage: usage, ...}`
+	m.usageField = -1
+	for _, u := range *param.Referrers() {
+		if st, ok := u.(*ssa.Store); ok && st.Val == ssa.Value(param) {
+			if fa, isFA := st.Addr.(*ssa.FieldAddr); isFA {
+				if al, isAl := fa.X.(*ssa.Alloc); isAl && al.Parent() == fn {
+					m.state, m.usageField = al, fa.Field
+				}
+			}
+		}
+	}
+	if m.state != nil {
+		// the struct must stay local: only field addresses are taken; the input field is stored once
+		nUsage := 0
+		for _, u := range *m.state.Referrers() {
+			switch x := u.(type) {
+			case *ssa.FieldAddr:
+				if x.Field == m.usageField {
+					for _, uu := range *x.Referrers() {
+						if st, isSt := uu.(*ssa.Store); isSt && st.Addr == ssa.Value(x) {
+							nUsage++
+						}
+					}
+				}
+			case *ssa.DebugRef:
+			default:
+				return nil, "the scanner state struct is used other than through its fields (method not inlined, or it escapes)"
+			}
+		}
+		if nUsage != 1 {
+			return nil, "the input string is re-assigned during scanning"
+		}
+	}
 	if m.usageCell != nil {
 		// the cell must never be re-assigned
 		n := 0
@@ -185,6 +413,7 @@ func (c *Ctx) lexModel() (*lexModel, string) {
 		}
 	}
 	// the position cell: an int Alloc whose loads index the input
+	posInState := false
 	ir.Instrs(fn, func(in ssa.Instruction) {
 		lk, ok := in.(*ssa.Index)
 		if !ok || !m.isUsage(lk.X) {
@@ -196,9 +425,13 @@ func (c *Ctx) lexModel() (*lexModel, string) {
 					m.pos = al
 				}
 			}
+			if f, isF := m.fieldAddrOf(ld.X); isF && m.pos == nil {
+				m.posField = f
+				posInState = true
+			}
 		}
 	})
-	if m.pos == nil {
+	if m.pos == nil && !posInState {
 		return nil, "no position cell indexing the input found"
 	}
 	// eof values: len(usage)
@@ -209,6 +442,33 @@ func (c *Ctx) lexModel() (*lexModel, string) {
 			}
 		}
 	})
+	if m.state != nil {
+		// a state field that is stored once, with len(usage): its loads are eof values too
+		stores := map[int][]ssa.Value{}
+		for _, u := range *m.state.Referrers() {
+			if fa, ok := u.(*ssa.FieldAddr); ok {
+				for _, uu := range *fa.Referrers() {
+					if st, isSt := uu.(*ssa.Store); isSt && st.Addr == ssa.Value(fa) {
+						stores[fa.Field] = append(stores[fa.Field], st.Val)
+					}
+				}
+			}
+		}
+		for f, vs := range stores {
+			if len(vs) == 1 && m.eof[vs[0]] {
+				for _, u := range *m.state.Referrers() {
+					if fa, ok := u.(*ssa.FieldAddr); ok && fa.Field == f {
+						for _, uu := range *fa.Referrers() {
+							if ld, isLd := uu.(*ssa.UnOp); isLd && ld.Op == token.MUL {
+								m.eof[ld] = true
+							}
+						}
+					}
+				}
+			}
+		}
+	}
+	m.tokenT = c.TypeNamed("internal/lexer", "Token")
 	// closures: emitters append to a token slice cell; error builders return a ParseError
 	for _, an := range fn.AnonFuncs {
 		appends := false
@@ -226,15 +486,23 @@ func (c *Ctx) lexModel() (*lexModel, string) {
 		}
 	}
 	// stores to pos, including from closures
-	for _, ref := range ir.CellRefs(m.pos) {
-		for _, u := range *ref.Referrers() {
-			if st, ok := u.(*ssa.Store); ok && st.Addr == ref {
-				if st.Parent() != fn {
-					return nil, "a closure writes the scanner position"
+	if m.pos != nil {
+		for _, ref := range ir.CellRefs(m.pos) {
+			for _, u := range *ref.Referrers() {
+				if st, ok := u.(*ssa.Store); ok && st.Addr == ref {
+					if st.Parent() != fn {
+						return nil, "a closure writes the scanner position"
+					}
+					m.stores = append(m.stores, st)
 				}
-				m.stores = append(m.stores, st)
 			}
 		}
+	} else {
+		ir.Instrs(fn, func(in ssa.Instruction) {
+			if st, ok := in.(*ssa.Store); ok && m.isPosAddr(st.Addr) {
+				m.stores = append(m.stores, st)
+			}
+		})
 	}
 	m.g = buildLexGraph(fn)
 	m.ltStores = map[*ssa.Store]bool{}
@@ -327,11 +595,11 @@ func (m *lexModel) advancedSince(from, to ssa.Instruction) bool {
 // advancesThrough: over all ways from the main loop header through call `at` back to the header, the
 // minimum and maximum number of stores to pos (each is +1 by LEX-1); unbounded if a cycle with a store
 // lies on such a way.
-func (m *lexModel) advancesThrough(main *ssa.BasicBlock, at *ssa.Call) (lo, hi int64, unbounded bool) {
+func (m *lexModel) advancesThrough(main *ssa.BasicBlock, at ssa.Instruction) (lo, hi int64, unbounded bool) {
 	count := func(b *ssa.BasicBlock, from, to int) int64 {
 		var n int64
 		for i := from; i < to && i < len(b.Instrs); i++ {
-			if st, ok := b.Instrs[i].(*ssa.Store); ok && st.Addr == ssa.Value(m.pos) {
+			if st, ok := b.Instrs[i].(*ssa.Store); ok && m.isPosAddr(st.Addr) {
 				n++
 			}
 		}
@@ -476,18 +744,23 @@ func (m *lexModel) isUsage(v ssa.Value) bool {
 	if ld, ok := v.(*ssa.UnOp); ok && ld.Op == token.MUL && m.usageCell != nil && ld.X == ssa.Value(m.usageCell) {
 		return true
 	}
+	if ld, ok := v.(*ssa.UnOp); ok && ld.Op == token.MUL && m.state != nil {
+		if f, isF := m.fieldAddrOf(ld.X); isF && f == m.usageField {
+			return true
+		}
+	}
 	return false
 }
 
 func (m *lexModel) isPosLoad(v ssa.Value) bool {
 	ld, ok := v.(*ssa.UnOp)
-	return ok && ld.Op == token.MUL && ld.X == ssa.Value(m.pos)
+	return ok && ld.Op == token.MUL && m.isPosAddr(ld.X)
 }
 
 // storeIn returns the index of the first store to pos in block b at or after index from, or -1.
 func (m *lexModel) storeIn(b *ssa.BasicBlock, from, to int) int {
 	for i := from; i < to && i < len(b.Instrs); i++ {
-		if st, ok := b.Instrs[i].(*ssa.Store); ok && st.Addr == ssa.Value(m.pos) {
+		if st, ok := b.Instrs[i].(*ssa.Store); ok && m.isPosAddr(st.Addr) {
 			return i
 		}
 	}
@@ -515,7 +788,7 @@ func (m *lexModel) lastStoreLT(b *ssa.BasicBlock, to int) bool {
 		if i >= len(b.Instrs) {
 			continue
 		}
-		if st, ok := b.Instrs[i].(*ssa.Store); ok && st.Addr == ssa.Value(m.pos) {
+		if st, ok := b.Instrs[i].(*ssa.Store); ok && m.isPosAddr(st.Addr) {
 			return m.ltStores[st]
 		}
 	}
@@ -991,14 +1264,8 @@ func lex3(c *Ctx) {
 		return
 	}
 	emitBlock := map[*ssa.BasicBlock]bool{}
-	for _, b := range fn.Blocks {
-		for _, in := range b.Instrs {
-			if call, ok := in.(*ssa.Call); ok {
-				if f := ir.Static(call); f != nil && m.emits[f] {
-					emitBlock[b] = true
-				}
-			}
-		}
+	for _, es := range m.emitSites() {
+		emitBlock[es.in.Block()] = true
 	}
 	// the dispatched character and the blank cases
 	blankEdges := map[ir.Edge]bool{}
@@ -1130,36 +1397,20 @@ func lex4(c *Ctx) {
 		li := v.(ssa.Instruction)
 		return !afterStore[li.Block()] && m.storeIn(li.Block(), 0, ir.IndexIn(li)) < 0
 	}
-	// does the emitter closure take the position from the cell itself?
-	implicitPos := map[*ssa.Function]bool{}
-	for f := range m.emits {
-		ir.Instrs(f, func(in ssa.Instruction) {
-			if ld, ok := in.(*ssa.UnOp); ok && ld.Op == token.MUL && ir.CellAlloc(ld.X) == m.pos {
-				implicitPos[f] = true
-			}
-		})
-	}
-	for _, call := range ir.Calls(fn) {
-		cv, ok := call.(*ssa.Call)
-		if !ok {
-			continue
-		}
-		f := ir.Static(cv)
-		if f == nil || !m.emits[f] {
-			continue
-		}
-		kinds := kindsOf(cv.Call.Args[0])
+	for _, es := range m.emitSites() {
+		cv := es.in
+		kinds := kindsOf(es.kind)
 		key := fmt.Sprintf("%s:emit[%s]@%s", Q(fn), strings.Join(kinds, "|"), relLine(c, fn, cv.Pos()))
 		var problems []string
-		text := cv.Call.Args[1]
+		text := es.text
 		var start ssa.Value
-		if implicitPos[f] {
+		if es.implicit {
 			// position = current content of the cell: must still be the iteration's start
 			if afterStore[cv.Block()] || m.storeIn(cv.Block(), 0, ir.IndexIn(cv)) >= 0 {
 				problems = append(problems, "the token's position is read after the position was advanced")
 			}
-		} else if len(cv.Call.Args) >= 3 {
-			start = cv.Call.Args[2]
+		} else if es.pos != nil {
+			start = es.pos
 			if !iterationStart(start) {
 				problems = append(problems, "the token's position is not the position at which the iteration started")
 			}
@@ -1412,8 +1663,8 @@ func lex5(c *Ctx) {
 				var problems []string
 				for _, s := range srcs {
 					switch {
-					case m != nil && isCellLoad(s, m.pos):
-						if !(m.isUsage(input) || isCellLoadV(input, m.usageCell)) {
+					case m != nil && (m.isPosLoad(s) || (m.pos != nil && isCellLoad(s, m.pos))):
+						if !(m.isUsage(input) || (m.usageCell != nil && isCellLoadV(input, m.usageCell))) {
 							problems = append(problems, "Pos is the scanner position but Input is not the scanned string")
 						}
 					case isFieldNamed(s, "Pos") && c.isNamed(fieldBaseType(s), "internal/lexer", "Token"):
@@ -1476,11 +1727,9 @@ func lex6(c *Ctx) {
 		return
 	}
 	emitted := map[string]bool{}
-	for _, call := range ir.Calls(m.fn) {
-		if f := ir.Static(call); f != nil && m.emits[f] {
-			for _, k := range kindsOf(call.Common().Args[0]) {
-				emitted[k] = true
-			}
+	for _, es := range m.emitSites() {
+		for _, k := range kindsOf(es.kind) {
+			emitted[k] = true
 		}
 	}
 	declared := declaredKinds(c)
